@@ -376,6 +376,137 @@ def o7b(h, st):
     h.mat_equal("U(circuit) * phase == exp(-i sum_k t_k c_k Q(f_k))", U, E, A, n)
     h.done()
 
+# ---------------------------------------------------------------------------------------------------------------------
+# P1  the term loop of get_exponentiated_qubit_operator_circuit for an operator with ANY number of terms (loop cut; callees replaced by their contracts)
+
+from tverif.engine import GhostList, Opaque, stub, snapshot
+from tverif.interp import GhostIterable, GSeq
+from tverif.ring import Poly
+
+CIRC = "tangelo/linq/circuit.py"
+
+
+class _TermLoop(GhostIterable):
+    managed = ("exp_pauli_word_gates", "phase")
+
+    def __init__(self, h, word, coef, control, variational, calls):
+        self.h, self.word, self.coef, self.control, self.variational, self.calls = h, word, coef, control, variational, calls
+        self.iterations = 0
+
+    def element(self):
+        self.iterations += 1
+        return (self.word, self.coef)
+
+    def init(self, interp, env):
+        self.h.check("on loop entry: no gates yet", env.lookup("exp_pauli_word_gates") == [])
+        self.h.check_close("on loop entry: phase 1", env.lookup("phase"), 1)
+
+    def havoc(self, interp, env):
+        h = self.h
+        self.acc = GhostList("exp_pauli_word_gates")
+        self.ph0 = h.real("phase_re") + Poly.const(1j) * h.real("phase_im")      # arbitrary accumulated phase
+        env.assign("exp_pauli_word_gates", self.acc)
+        env.assign("phase", self.ph0)
+
+    def step(self, interp, env, broke):
+        h, c = self.h, self.coef
+        h.check("the loop does not stop early", not broke)
+        h.check("gate list not rebound (prefix kept)", env.lookup("exp_pauli_word_gates") is self.acc)
+        new = self.acc.appended
+        ph = env.lookup("phase")
+        if self.word:
+            h.check_close("a Pauli-word term leaves the phase alone", ph, self.ph0)
+            if new:
+                h.check("the term's gates are exactly those of exp_pauliword_to_gates(word, Re coef, variational, control)", len(self.calls) == 1 and len(new) == 1
+                        and isinstance(new[0], Opaque) and new[0]._info["call"] is self.calls[0])
+                if len(self.calls) == 1:
+                    a, k = self.calls[0]
+                    full = dict(zip(["pauli_word", "coef", "variational", "control"], a))
+                    full.update(k)
+                    h.check("exp_pauliword_to_gates receives the word", full.get("pauli_word") == self.word)
+                    h.check_close("... and the real coefficient", full.get("coef"), c)
+                    h.check("... and the variational flag and the control", full.get("variational", True) == self.variational and full.get("control") == self.control)
+            else:
+                h.check("a term is skipped only if |coef| <= 1e-10 (exp(-i c P) is then within 1e-10 of the identity)", (c <= 1e-10) & (c >= -1e-10))
+                h.check("a skipped term costs no call", self.calls == [])
+        else:
+            h.check("an identity term never calls exp_pauliword_to_gates", self.calls == [])
+            if self.control is None:
+                h.check("identity term without control: no gate", new == [])
+                # phase' == phase * exp(-i c)
+                h.check_close("identity term without control: phase multiplied by exp(-i c)", ph, self.ph0 * _cexp(c))
+            else:
+                h.check_close("identity term with control: returned phase untouched", ph, self.ph0)
+                ctrl = [self.control] if isinstance(self.control, int) else list(self.control)
+                n = max(ctrl) + 2
+                h.check("identity term with control: one gate", len(new) == 1)
+                if len(new) == 1:
+                    U, A = qsem.unitary(new, n, exact=True)
+                    # exp(-i c) on the subspace where every control is 1, identity elsewhere
+                    E = qsem.controlled_rows({i: {i: qsem_scalar(A, c)} for i in range(2 ** n)}, ctrl, n, A)
+                    h.mat_equal("identity term with control: phase exp(-i c) on the controlled subspace", U, E, A, n)
+                    h.check("variational flag of the phase gate", new[0].is_variational == self.variational)
+
+
+def _cexp(c):
+    """exp(-i c) as an exact ring element"""
+    return ring.expi(-1 * c)
+
+
+def qsem_scalar(A, c):
+    return _cexp(c)
+
+
+def p1_structures(tier):
+    sts = []
+    for word in ([], [[0, "X"]], [[0, "Z"], [2, "Y"]]):
+        for control in (None, 3, [3], [3, 4], [5, 3, 4]):
+            for var in (False, True):
+                for rp in (False, True):
+                    sts.append({"word": word, "control": control, "variational": var, "return_phase": rp, "order": 1 if not var else 2})
+    return sts
+
+
+@contract("C06", "P1.get_exponentiated_qubit_operator_circuit.term_loop.any_number_of_terms", targets=[(AU, "get_exponentiated_qubit_operator_circuit")], level="P",
+          structures=p1_structures)
+def p1(h, st):
+    """for an operator with ANY number of terms: the terms (in the operator's order, or the given pauli_order) go with the Trotter order and the time to
+    recursive_trotter_suzuki_decomposition (contract O6); for the sequence it returns - any length - one generic iteration on a generic (word, coef), every real coef:
+    a Pauli word contributes exactly the gates of exp_pauliword_to_gates(word, coef, variational, control) (contract O3: they implement [controlled] exp(-i coef P)), appended
+    to an arbitrary prefix, and is skipped only if |coef| <= 1e-10; an identity term multiplies the returned phase by exp(-i coef) (no control) or appends one gate whose operator
+    is exp(-i coef) on the controlled subspace; the result is Circuit(accumulated gates) [, phase]. By induction: U(circuit) * phase == ordered product of the factors"""
+    if not h.symbolic:
+        h.check("native: covered by O4", True)
+        h.done()
+        return
+    word = tuple((i, l) for i, l in st["word"])
+    c = h.real("c", angle_denom=1)
+    calls, dec_calls, init_calls = [], [], []
+    proto = _TermLoop(h, word, c, st["control"], st["variational"], calls)
+    stub(h, AU, "exp_pauliword_to_gates", lambda a, k: [Opaque("gates of exp_pauliword_to_gates", call=calls[-1])], log=calls)
+    stub(h, AU, "recursive_trotter_suzuki_decomposition", lambda a, k: proto, log=dec_calls)
+    stub(h, CIRC, "Circuit.__init__", lambda a, k: None, log=init_calls)
+    t = h.real("t")
+
+    class _Terms:
+        def items(self_):
+            return GSeq.atom("qubit_op.terms.items()", Opaque("generic term"))
+
+    class _Op:
+        terms = _Terms()
+    out = h.call(AU, "get_exponentiated_qubit_operator_circuit", _Op(), t, st["variational"], st["order"], st["control"], st["return_phase"])
+    h.check("the decomposition is asked once, for the operator's terms in order, with the Trotter order and the time", len(dec_calls) == 1 and isinstance(dec_calls[0][0][0], GSeq)
+            and dec_calls[0][0][0].describe() == ("shallow", ("atom", "qubit_op.terms.items()")) and dec_calls[0][0][1] == st["order"] and dec_calls[0][0][2] is t)
+    h.check("the loop body was entered once for the generic term", proto.iterations == 1)
+    from tangelo.linq import Circuit
+    h.check("one circuit constructed from the accumulated gates", len(init_calls) == 1 and init_calls[0][0][1] is proto.acc)
+    if st["return_phase"]:
+        h.check("(circuit, phase) returned", isinstance(out, tuple) and len(out) == 2 and isinstance(out[0], Circuit))
+    else:
+        h.check("circuit returned", isinstance(out, Circuit))
+    h.done()
+
+
 PROPERTY = {
     "level": "proof",
     "explanation": "S-level: for each enumerated structure (Pauli word, control placement, sign case) the real function's AST is executed "
